@@ -60,6 +60,8 @@ def run(tier):
               "<=3 (blocks/multi <=2 quick, <=4 thorough) for every TrueSet, 3 threads over ranges <=2 (thorough), "
               "random schedules for 3-4 threads, uint8_t ranges ending at 254/255, int64_t / int8_t ranges below and across zero and at the int8_t extremes, free runs under TSan with 1..16 "
               "threads; distinct = (variant, range length, block, |TrueSet|[, schedule length class]) classes")
+    c.rule += (" Signed and narrow types: int8_t ranges wider than 127, ranges ending 0..threads*block+1 below the maximum of "
+               "uint8_t / uint32_t / uint64_t / int32_t / int64_t (wide types logged relative to a base).")
     c.assumptions = ["std::atomic operations are sequentially consistent single steps (validated by TSan free runs)",
                      "compare_exchange_weak does not fail spuriously in the shim (a spurious failure only retries)"]
     return c.finish()
